@@ -17,6 +17,19 @@ abbrev PSet := List (Str × Loaded)
 
 def PSet.get (ps : PSet) (name : Str) : Option Loaded := (ps.find? (·.1 = name)).map (·.2)
 
+/-- `resolveDependencies` with the cache threaded through -/
+def seqLoadS (load : Str → PSet → PSet × Outcome Loaded) : List Str → PSet → PSet × Outcome (List Loaded)
+  | [], ps => (ps, .ok [])
+  | d :: ds, ps =>
+    match load d ps with
+    | (ps1, .err t) => (ps1, .err t)
+    | (ps1, .panic w) => (ps1, .panic w)
+    | (ps1, .ok l) =>
+      match seqLoadS load ds ps1 with
+      | (ps2, .ok more) => (ps2, .ok (l :: more))
+      | (ps2, .err t) => (ps2, .err t)
+      | (ps2, .panic w) => (ps2, .panic w)
+
 /-- `loadPackage` with the cache -/
 def loadPkgS (b : Bundle) : Nat → List Str → Str → PSet → PSet × Outcome Loaded
   | 0, _, _, ps => (ps, .err "fuel")
@@ -36,33 +49,15 @@ def loadPkgS (b : Bundle) : Nat → List Str → Str → PSet → PSet × Outcom
         | .err t => (ps, .err t)
         | .panic w => (ps, .panic w)
         | .ok sums =>
-          let exports := sums.flatMap (·.exports)
-          let depNames := (dedup (sums.flatMap (·.depPkgs))).filter (· ≠ name)
-          let rec loadDeps : List Str → PSet → PSet × Outcome (List Loaded)
-            | [], ps => (ps, .ok [])
-            | d :: ds, ps =>
-              match loadPkgS b fuel (chain ++ [name]) d ps with
-              | (ps1, .err t) => (ps1, .err t)
-              | (ps1, .panic w) => (ps1, .panic w)
-              | (ps1, .ok l) =>
-                match loadDeps ds ps1 with
-                | (ps2, .ok more) => (ps2, .ok (l :: more))
-                | (ps2, .err t) => (ps2, .err t)
-                | (ps2, .panic w) => (ps2, .panic w)
-          match loadDeps depNames ps with
+          match seqLoadS (fun d ps => loadPkgS b fuel (chain ++ [name]) d ps) (depNamesOf name sums) ps with
           | (ps1, .err t) => (ps1, .err t)
           | (ps1, .panic w) => (ps1, .panic w)
           | (ps1, .ok ls) =>
-            let deps := ls.map fun l => (l.name, l.exports)
-            let res : Resolver := { pkgName := name, exports := exports, deps := deps }
-            match convertAll res pkg.files with
+            match convertAll (mkResolver name sums ls) pkg.files with
             | .err t => (ps1, .err t)
             | .panic w => (ps1, .panic w)
             | .ok files =>
-              let l : Loaded :=
-                { name := name, exports := exports, deps := deps, files := files,
-                  depFiles := ls.flatMap fun l => l.files ++ l.depFiles,
-                  protos := protoFilesOf pkg.files ++ ls.flatMap (·.protos) }
+              let l := mkLoaded name pkg sums ls files
               (ps1 ++ [(name, l)], .ok l)
 
 /-- `CompilePackage` on an existing set -/
